@@ -790,6 +790,7 @@ func runC04(cfg *vh.Config) error {
 	// consecutive seeds of vh.NewRand are one draw apart (state = seed*G + c, each draw adds G):
 	// fork, so that VERIF_SEED=1,2,3 are unrelated streams
 	r := cfg.R.Fork("C04")
+	genTSBounds, genKeyWellKnown = false, true
 	nObj := cfg.Scale(260, 4000)
 	distinct := vh.Distinct{}
 	caseNo := 0
@@ -1054,6 +1055,14 @@ func runC04(cfg *vh.Config) error {
 		case mem.err != nil:
 			res.Count("reflect-error")
 			sig := "C04 reflecting the compiled object fails: " + firstWords(mem.err.Error(), 8)
+			if strings.Contains(mem.err.Error(), "is not compatible with list.unique_string") {
+				for _, p := range props {
+					t := p.P.T
+					if t.Kind == TKey && t.KF == KCustom && t.List != nil && p.P.PK == PSingle && (t.KPat == wellKnownPatterns[0] || t.KPat == wellKnownPatterns[1] || t.KPat == wellKnownPatterns[2]) {
+						sig = "C04 key:custom whose pattern is one of the reader's well-known patterns (date / number / id62) and which carries list rules: the reader fails (string format is not compatible with list.unique_string), the object does not reflect"
+					}
+				}
+			}
 			if strings.Contains(mem.err.Error(), "open_text and format") {
 				for _, p := range props {
 					t := p.P.T
@@ -1231,18 +1240,17 @@ func asymmetryClasses(p genDecl) []asymmetry {
 		add("C04 string whose pattern is the reader's well-known date / number pattern: reads back as format date / number without the pattern", item+".string.format", item+".string.rules.pattern")
 	case t.Kind == TAny && (t.AnyOD || len(t.AnyT) > 0) && p.P.PK != PSingle:
 		add("C04 array of any with onlyDefined / types: (j5.ext.v1.field).any is replaced by the array annotation", item+".any.onlyDefined", item+".any.types")
-	case t.Kind == TKey && (t.KF == KCustom || t.KF == KInformal) && p.P.PK != PSingle:
+	case t.Kind == TKey && (t.KF == KCustom || t.KF == KInformal) && p.P.PK != PSingle && !(t.KF == KInformal && t.List != nil && p.P.PK == PArray):
+		// (an informal key item WITH list rules is recognised through its unique_string foreign key)
 		add("C04 array of key:custom / key:informal: the format lives in (j5.ext.v1.field).key, which the array annotation replaces", item+".key", item+".string")
-	case t.Kind == TKey && t.KF == KCustom && t.List != nil:
-		add("C04 key:custom with list rules: written as a unique_string foreign key, reads back as key:informal", item+".key.format")
+	case t.Kind == TKey && t.KF == KCustom && t.KPat == wellKnownPatterns[2] && t.List == nil:
+		add("C04 key:custom whose pattern is the published id62 pattern: reads back as key:id62", item+".key.format")
 	case t.Kind == TKey && t.KF == KNone && t.List != nil:
 		add("C04 key without format but with list rules: reads back as key:informal", item+".key.format")
 	case t.Kind == TKey && t.KF == KNone && p.P.PK != PSingle && t.Entity == nil:
 		add("C04 array of key without format: (j5.ext.v1.field) is the array's, the items read back as string", item+".key", item+".string")
 	case (t.Kind == TDate || t.Kind == TDecimal) && t.Txt != nil && p.P.PK != PSingle:
 		add("C04 array of date/decimal with rules: the rules live in (j5.ext.v1.field), which the array annotation overwrites", item+".date.rules", item+".decimal.rules")
-	case t.Kind == TTimestamp && t.TS != nil && (t.TS.Min != nil || t.TS.Max != nil):
-		add("C04 timestamp rules: the bounds are never written (fields.go: \"None Implemented\"), they read back empty", item+".timestamp.rules")
 	case t.Kind == TObject && t.Flatten && p.P.PK != PSingle:
 		add("C04 array of flattened object: flatten lives in (j5.ext.v1.field), which the array annotation overwrites", item+".object.flatten")
 	}
